@@ -347,6 +347,21 @@ def mon_c11(run, case, stmts):
         if v["kind"] == "identity_field_changed":
             continue  # judged by C08
         run.v("C11", v["kind"], v["site"], f"inv {v['inv']}: {v['detail']}")
+    # the stream as SENT: a batch is never transmitted again once a transmission of it was applied (each of its updates
+    # would be a second start / a record after a terminal one), and a consumed checkpoint token is never used again
+    applied: dict = {}
+    for rec in run.backend.api:
+        if rec.get("kind") != "checkpoint":
+            continue
+        key = (rec["inv"], rec["token"])
+        if key in applied:
+            prev = applied[key]
+            same = [(u.get("Id"), u.get("Action")) for u in prev["updates"]] == [(u.get("Id"), u.get("Action")) for u in rec["updates"]]
+            acts = sorted({f"{u.get('Type')}:{u.get('Action')}" for u in rec["updates"]})
+            run.v("C11", "batch_sent_again_after_it_was_applied" if same else "consumed_token_used_again", ",".join(acts)[:60] or "empty",
+                  f"inv {rec['inv']}: call #{rec['idx']} re-uses token {rec['token']} consumed by applied call #{prev['idx']}; updates {[(u.get('Type'), u.get('Action')) for u in rec['updates']]}")
+        elif rec.get("applied"):
+            applied[key] = rec
 
 
 # ------------------------------------------------------------------------------------------------ C12
